@@ -103,6 +103,10 @@ pub struct VerifRel {
     pub compact_text: String,
     /// the compact path string, parsed and resolved from i, reaches j
     pub compact_resolves_to_target: bool,
+    /// path(i) == path(j) according to the runtime's own equality
+    pub paths_equal: bool,
+    /// hash(path(i)) == hash(path(j))
+    pub path_hashes_equal: bool,
 }
 
 fn hash_of(p: &Path) -> u64 {
@@ -228,6 +232,8 @@ impl Story {
             compact_text: compact,
             compact_resolves_to_target: same_object(&compact_resolved.obj, &to)
                 && !compact_resolved.approximate,
+            paths_equal: from_path == to_path,
+            path_hashes_equal: hash_of(&from_path) == hash_of(&to_path),
         })
     }
 }
